@@ -255,7 +255,9 @@ func (c *Ctx) lenFactsAtDepth(eng *ranges.Engine, fn *ssa.Function, s ssa.Value,
 				}
 				if oc, ridx, wantOnTrue, ok := ranges.OutcomeOfCond(ifCond(d)); ok && oc == call {
 					want := wantOnTrue == (d.Succs[0] == cb)
-					if m, ok := c.resultLenOnOutcome(eng, fn, call, ex.Index, ridx, want, depth); ok {
+					if m, ok := c.resultLenOnOutcome(eng, fn, call, ex.Index, ridx, want, depth); ok && m > 0 {
+						// the outcome test is a length test only if the helper guarantees a length on
+						// that outcome (an error test alone says nothing about len)
 						if m > f.min {
 							f.min = m
 						}
